@@ -36,5 +36,13 @@ func round12(c *Ctx, r *Report, p string) {
 		startedNotClearedByLoops(c, r, "C13.R4.started-not-cleared-by-loops")
 	case "C14":
 		matchFromRegistry(c, r, "C14.R3.match-from-registry")
+	case "C10":
+		canonicalOnlyListed(c, r, "C10.R3.canonical-only-listed")
+		algorithmComparedAsIs(c, r, "C10.R1.algorithm-as-is", "RRSIG.Verify", "RRSIG")
+	case "C19":
+		namesNotComparedAsStrings(c, r, "C19.R6.names-not-compared-as-strings")
+		noOverlappingScratch(c, r, "C19.R2.no-overlapping-scratch", []string{"CompareDomainName", "Split", "IsSubDomain", "CountLabel"})
+	case "C06":
+		digitShortcutTestsWhatItPrints(c, r, "C06.R5.digit-shortcut")
 	}
 }
